@@ -28,6 +28,7 @@ import Driver.VerifyFmtStatic
 import Driver.VerifyFmtDesBcrypt
 import Driver.TotpTime
 import Driver.CodeDes
+import Driver.CodeIter
 /-
 Line protocol driver: `<suite> <op> <args…>` per input line, one result line out.
 Compiled (`lean_exe modeldrv`); nothing imported here touches Mathlib.
@@ -64,6 +65,7 @@ def dispatch (line : String) : String :=
   | "vfyD" :: rest => Driver.VerifyFmtDesBcrypt.handle rest
   | "ttime" :: rest => Driver.TotpTime.handle rest
   | "cdes" :: rest => Driver.CodeDes.handle rest
+  | "citer" :: rest => Driver.CodeIter.handle rest
   | _ => Driver.bad
 
 partial def loop (h : IO.FS.Stream) (out : IO.FS.Stream) : IO Unit := do
